@@ -377,6 +377,13 @@ def x8(ctx, rid):
         raise core.AnchorLost('in-session try_regenerate_index call sites: %d' % n)
 
 
+def x9(ctx, rid):
+    """C08.D8 instances: a dropped write future leaves a detached append closure; the next record must be stamped with the offset
+    its own closure reserves, not with one read before"""
+    import props.c08 as c08
+    c08.d8(ctx, rid)
+
+
 RULES = [
     Rule('C14.X1', 'reservation of a file offset and the OS write consuming it lie in non-coroutine bodies run by a blocking runner', x1, 4),
     Rule('C14.X2', 'no suspension point between the completed record append and its index push', x2, 2),
@@ -385,5 +392,6 @@ RULES = [
     Rule('C14.X6', 'a short (empty / cut) index file left by an interrupted dump is regenerated at the next start (C03.I10 instance)', x6, 1),
     Rule('C14.X7', 'no shared-collection registration is undone by a plain statement after a suspension point in a client-cancellable body', x7, 1),
     Rule('C14.X8', 'in a running session an index is rebuilt from the blob file only on the Err of loading the index file', x8, 1),
+    Rule('C14.X9', 'every WritableDataCreator builds its result from the offset reserved inside the non-cancellable append closure (C08.D8 instances)', x9, 1),
     Rule('C14.X4', 'no RAII guard whose Drop undoes a counter reservation is live across a suspension point of a client-cancellable future', x4, 1),
 ]
